@@ -1006,3 +1006,146 @@ C05_KERNEL_TRIPLES = dict(
     implicit_return="(({idx1}, {idx2}, {idx3}), draws)",      # the three index arrays and the recorded answers not yet consumed
 )
 ALL += [C05_KERNEL_CHECKS, C05_KERNEL_TRIPLES]
+# ---- C09: the prediction code (vocabulary: end of Model/Predict.v) ----
+# Arrays are typed by shape: vec = float (n,), mat = float (n, D), list Z = int (n,), idmat = int (n, arity); qnum = a float.
+# Trusted per entry: one attribute read / numpy operator / numpy or scipy call each.  WHICH embedding is gathered with WHICH id
+# column, what is multiplied / added / summed, the control zeroing, the viability branch, the arity dispatch come from the translation.
+_C09 = dict(out="SrcPredict.v", imports="Generated.Consts Lib.Num Model.Predict", overload=True)
+_C09_T, _C09_D = {"t": "sparse_theta"}, {"d": "pydata"}
+_C09_THETA_ATTRS = [      # the dataclass fields of SparseDrugComboMCMCSample
+    ("__t.W", "sW {t}", "mat", _C09_T), ("__t.W0", "sW0 {t}", "vec", _C09_T), ("__t.V2", "sV2 {t}", "mat", _C09_T),
+    ("__t.V1", "sV1 {t}", "mat", _C09_T), ("__t.V0", "sV0 {t}", "vec", _C09_T), ("__t.alpha", "salpha {t}", "qnum", _C09_T),
+    ("__t.precision", "sprec {t}", "qnum", _C09_T)]
+_C09_DATA_ATTRS = [       # the two id arrays of a ScreenBase object; size / treatment_arity run their translations
+    ("__d.sample_ids", "pd_sample_ids {d}", "list Z", _C09_D), ("__d.treatment_ids", "pd_treatment_ids {d}", "idmat", _C09_D),
+    ("__d.treatment_arity", "!src_data_treatment_arity {d}", "Z", _C09_D), ("__d.size", "!src_data_size {d}", "Z", _C09_D)]
+_C09_INDEX = [
+    ("__a[:, __k]", "!np_col {a} {k}", "list Z", {"a": "idmat", "k": "Z"}),                     # a column of the 2-d id array
+    ("__a[__i]", "!np_take {a} {i}", "mat", {"a": "mat", "i": "list Z"}),                        # fancy indexing: rows of a matrix
+    ("__a[__i]", "!np_take {a} {i}", "vec", {"a": "vec", "i": "list Z"})]                        # ... entries of a vector
+_C09_OPS = [              # numpy's elementwise operators on operands of equal shape, and float + vec
+    ("__a + __b", "sadd {a} {b}", "vec", {"a": "qnum", "b": "vec"}),
+    ("__a + __b", "vadd {a} {b}", "vec", {"a": "vec", "b": "vec"}),
+    ("__a + __b", "madd {a} {b}", "mat", {"a": "mat", "b": "mat"}),
+    ("__a * __b", "mmul {a} {b}", "mat", {"a": "mat", "b": "mat"}),
+    ("np.sum(__x, -1)", "sum_last {x}", "vec", {"x": "mat"})]                                    # sum over the last axis
+# copy_array_with_control_treatments_set_to_zero(a, ids) runs its translation, at rows (zero = a zero row) or numbers
+_C09_COPY0 = [
+    ("copy_array_with_control_treatments_set_to_zero(__a, __i)", "!src_copy_zero vec zrow {a} {i}", "mat", {"a": "mat", "i": "list Z"}),
+    ("copy_array_with_control_treatments_set_to_zero(__a, __i)", "!src_copy_zero qnum zscal {a} {i}", "vec", {"a": "vec", "i": "list Z"})]
+_C09_VIAB = [
+    ("expit(__x)", "vexpit orc {x}", "vec", {"x": "vec"}),                                       # scipy.special.expit = the oracle, entrywise
+    ("np.clip(__x, a_min=__lo, a_max=__hi)", "vclip {lo} {hi} {x}", "vec", {"x": "vec", "lo": "qnum", "hi": "qnum"}),
+    ("0.01", "VIAB_LO", "qnum"), ("0.99", "VIAB_HI", "qnum")]                                    # the literals as exact rationals
+
+# `arr` is an array whose axis-0 entries have any type A (numbers or rows); z = "the zeros of an entry's shape"
+C09_COPY_ZERO = dict(
+    _C09, file="src/batchie/common.py", func="copy_array_with_control_treatments_set_to_zero", name="src_copy_zero",
+    pyparams=["arr", "treatment_array"],
+    params=[("A", "Type"), ("z", "A -> A"), ("arr", "list A"), ("treatment_array", "list Z")], returns="list A",
+    vars={"results": "list A"},
+    prims=[("__a[__i, ...]", "!np_take {a} {i}", "list A", {"a": "list A", "i": "list Z"}),
+           ("__a == __v", "np_eq_scalar {a} {v}", "list bool", {"a": "list Z", "v": "Z"}),
+           ("CONTROL_SENTINEL_VALUE", "CONTROL_SENTINEL_VALUE", "Z")],          # Generated/Consts.v: re-read from common.py on every run
+    assign_effects=[("results[__m, ...] = 0.0", "results'", "!np_mask_zero z {state} {m}")],
+)
+_C09_SIZE = dict(_C09, file="src/batchie/data.py", cls="ScreenBase", pyparams=["self"], params=[("self", "pydata")], returns="Z", vars={})
+C09_DATA_SIZE = dict(_C09_SIZE, func="size", name="src_data_size",
+                     prims=_C09_DATA_ATTRS[:2] + [("__a.shape[0]", "im_shape0 {a}", "Z", {"a": "idmat"})])
+C09_DATA_ARITY = dict(_C09_SIZE, func="treatment_arity", name="src_data_treatment_arity",
+                      prims=_C09_DATA_ATTRS[:2] + [("__a.shape[1]", "im_shape1 {a}", "Z", {"a": "idmat"})])
+_C09_PREDICT = dict(
+    _C09, file="src/batchie/models/sparse_combo.py", pyparams=["mcmc_sample", "data", "viability"],
+    params=[("orc", "oracle"), ("mcmc_sample", "sparse_theta"), ("data", "pydata"), ("viability", "bool")], returns="vec",
+    prims=_C09_THETA_ATTRS + _C09_DATA_ATTRS + _C09_INDEX + _C09_OPS + _C09_COPY0 + _C09_VIAB)
+C09_PREDICT = dict(_C09_PREDICT, func="predict", name="src_predict",
+                   vars={"interaction2": "vec", "interaction1": "vec", "intercept": "vec", "Mu": "vec"})
+C09_PREDICT_SINGLE = dict(_C09_PREDICT, func="predict_single_drug", name="src_predict_single_drug",
+                          vars={"interaction1": "vec", "intercept": "vec", "Mu": "vec"})
+# the methods of the sample type: dispatch on the arity; predict(...) / predict_single_drug(...) run their translations
+_C09_CALLS = [
+    ("predict_single_drug(__t, __d, viability=__v)", "!src_predict_single_drug orc {t} {d} {v}", "vec",
+     {"t": "sparse_theta", "d": "pydata", "v": "bool"}),
+    ("predict(__t, __d, viability=__v)", "!src_predict orc {t} {d} {v}", "vec", {"t": "sparse_theta", "d": "pydata", "v": "bool"})]
+_C09_METHOD = dict(
+    _C09, file="src/batchie/models/sparse_combo.py", cls="SparseDrugComboMCMCSample", pyparams=["self", "data"],
+    params=[("orc", "oracle"), ("self", "sparse_theta"), ("data", "pydata")], returns="vec", vars={},
+    prims=_C09_THETA_ATTRS + _C09_DATA_ATTRS + _C09_CALLS,
+    raises=[("SparseDrugCombo only supports 1 or 2 treatments", 2)])       # NotImplementedError = ERR_ARITY
+C09_SP_VIABILITY = dict(_C09_METHOD, func="predict_viability", name="src_sp_predict_viability")
+C09_SP_MEAN = dict(_C09_METHOD, func="predict_conditional_mean", name="src_sp_predict_conditional_mean")
+_C09_VARIANCE = [
+    ("1 / __p", "!py_recip {p}", "qnum", {"p": "qnum"}),                     # Python float division: ZeroDivisionError at 0.0
+    ("np.repeat(__x, repeats=__n)", "np_repeat {x} {n}", "vec", {"x": "qnum", "n": "Z"})]
+C09_SP_VARIANCE = dict(
+    _C09_METHOD, func="predict_conditional_variance", name="src_sp_predict_conditional_variance",
+    params=[("self", "sparse_theta"), ("data", "pydata")], vars={"v": "vec"},
+    prims=_C09_THETA_ATTRS + _C09_DATA_ATTRS + _C09_VARIANCE)
+# models/main.py predict_*_all / predict_*_avg.  `thetas` is the model's holder (declared n_thetas, stored samples); the three
+# Theta methods are the parameter pm (kind -> sample -> data -> result): ANY implementation; the linking theorems take the one
+# that dispatches to the translated methods above.
+_C09_MAIN = dict(
+    _C09, file="src/batchie/models/main.py", pyparams=["screen", "thetas"],
+    params=[("pm", "kind -> theta -> pydata -> result vec"), ("screen", "pydata"), ("thetas", "holder")])
+_C09_TH = {"t": "theta", "d": "pydata"}
+_C09_MAIN_PRIMS = _C09_DATA_ATTRS + [
+    ("__h.n_thetas", "Z.of_nat (h_n {h})", "Z", {"h": "holder"}),                              # the declared number of samples
+    ("__h.get_theta(__i)", "!holder_get {h} {i}", "theta", {"h": "holder", "i": "Z"}),
+    ("__t.predict_viability(__d)", "!pm KViab {t} {d}", "vec", _C09_TH),
+    ("__t.predict_conditional_mean(__d)", "!pm KMean {t} {d}", "vec", _C09_TH),
+    ("__t.predict_conditional_variance(__d)", "!pm KVar {t} {d}", "vec", _C09_TH),
+    ("np.zeros((__n, __m), dtype=FloatingPointType)", "np_zeros2 {n} {m}", "mat", {"n": "Z", "m": "Z"}),
+    ("np.zeros((__n,), dtype=FloatingPointType)", "np_zeros1 {n}", "vec", {"n": "Z"}),
+    ("__a[__i, :]", "!np_row {a} {i}", "vec", {"a": "mat", "i": "Z"}),
+    ("np.isnan(__x).any()", "vec_has_nan {x}", "bool", {"x": "vec"}),                          # no NaN over the rationals
+    ("np.any(np.isnan(__x))", "vec_has_nan {x}", "bool", {"x": "vec"}),
+    ("__x.size", "vec_size {x}", "Z", {"x": "vec"}),
+    ("np.stack(__l, dtype=FloatingPointType)", "!np_stack {l}", "mat", {"l": "list vec"}),
+    ("__a + __b", "vadd {a} {b}", "vec", {"a": "vec", "b": "vec"}),
+    ("__x / __n", "!np_div_int {x} {n}", "vec", {"x": "vec", "n": "Z"}),
+]
+_C09_MAIN_RAISES = [("NaN predictions were created", 7), ("not the same size as the screen", 8)]
+_C09_ALL_ROWS = dict(
+    _C09_MAIN, returns="mat", vars={"result": "mat", "theta_index": "Z", "theta": "theta"}, prims=_C09_MAIN_PRIMS,
+    assign_effects=[("result[__i, :] = __v", "result'", "!np_set_row {state} {i} {v}")], raises=_C09_MAIN_RAISES)
+C09_VIABILITY_ALL = dict(_C09_ALL_ROWS, func="predict_viability_all", name="src_predict_viability_all")
+C09_MEAN_ALL = dict(_C09_ALL_ROWS, func="predict_mean_all", name="src_predict_mean_all")
+C09_VARIANCE_ALL = dict(
+    _C09_MAIN, func="predict_variance_all", name="src_predict_variance_all", returns="mat",
+    # `result` is one sample's variance vector inside the loop and the stacked matrix after it
+    vars={"results": "list vec", "result": "vec | mat", "theta_index": "Z", "theta": "theta"},
+    prims=_C09_MAIN_PRIMS, raises=_C09_MAIN_RAISES)
+_C09_AVG = dict(_C09_MAIN, returns="vec", vars={"result": "vec", "sub_result": "vec", "theta_index": "Z", "theta": "theta"},
+                prims=_C09_MAIN_PRIMS, raises=_C09_MAIN_RAISES)
+C09_MEAN_AVG = dict(_C09_AVG, func="predict_mean_avg", name="src_predict_mean_avg")
+C09_VIABILITY_AVG = dict(_C09_AVG, func="predict_viability_avg", name="src_predict_viability_avg")
+# the methods of the interaction sample type (models/sparse_combo_interaction.py)
+_C09_I = {"t": "inter_theta"}
+_C09_INTER_ATTRS = [("__t.W", "iW {t}", "mat", _C09_I), ("__t.V2", "iV2 {t}", "mat", _C09_I), ("__t.precision", "iprec {t}", "qnum", _C09_I)]
+_C09_INTER = dict(
+    _C09, file="src/batchie/models/sparse_combo_interaction.py", cls="SparseDrugComboInteractionMCMCSample", pyparams=["self", "data"],
+    params=[("orc", "oracle"), ("self", "inter_theta"), ("data", "pydata")], returns="vec",
+    raises=[("SparseDrugComboInteraction only supports data sets with combinations of 2 treatments", 2)])     # ValueError = ERR_ARITY
+C09_IN_MEAN = dict(
+    _C09_INTER, func="predict_conditional_mean", name="src_in_predict_conditional_mean", vars={"interaction": "vec"},
+    params=[("self", "inter_theta"), ("data", "pydata")],
+    prims=_C09_INTER_ATTRS + _C09_DATA_ATTRS + _C09_INDEX + _C09_OPS + _C09_COPY0)
+C09_IN_VIABILITY = dict(
+    _C09_INTER, func="predict_viability", name="src_in_predict_viability",
+    vars={"interaction": "vec", "single_effect": "vec", "viability": "vec", "c": "Z", "dd1": "Z", "dd2": "Z"},
+    prims=_C09_INTER_ATTRS + _C09_DATA_ATTRS + _C09_INDEX + _C09_VIAB + [
+        ("self.predict_conditional_mean(__d)", "!src_in_predict_conditional_mean self' {d}", "vec", _C09_D),     # runs its translation
+        ("zip(__a, __b, __c)", "zip3 {a} {b} {c}", "list (Z * Z * Z)", {"a": "list Z", "b": "list Z", "c": "list Z"}),
+        ("__t.single_effect_lookup[__c, __d]", "!lookup_key (ilookup {t}) {c} {d}", "qnum", {"t": "inter_theta", "c": "Z", "d": "Z"}),
+        ("__a * __b", "qmul {a} {b}", "qnum", {"a": "qnum", "b": "qnum"}),
+        ("np.clip(__x, a_min=__lo, a_max=__hi)", "vclip {lo} {hi} {x}", "vec", {"x": "list qnum", "lo": "qnum", "hi": "qnum"}),   # of a Python list of floats
+        ("np.exp(__x)", "vexp orc {x}", "vec", {"x": "vec"}), ("np.log(__x)", "vlog orc {x}", "vec", {"x": "vec"}),
+        ("__a + __b", "vadd {a} {b}", "vec", {"a": "vec", "b": "vec"})])
+C09_IN_VARIANCE = dict(
+    _C09_INTER, func="predict_conditional_variance", name="src_in_predict_conditional_variance",
+    params=[("self", "inter_theta"), ("data", "pydata")], vars={"v": "vec"},
+    prims=_C09_INTER_ATTRS + _C09_DATA_ATTRS + _C09_VARIANCE)       # `1.0 / p` is the pattern `1 / __p` (1 == 1.0)
+C09_ALL = [C09_COPY_ZERO, C09_DATA_SIZE, C09_DATA_ARITY, C09_PREDICT, C09_PREDICT_SINGLE,
+           C09_SP_VIABILITY, C09_SP_MEAN, C09_SP_VARIANCE, C09_IN_MEAN, C09_IN_VIABILITY, C09_IN_VARIANCE,
+           C09_VIABILITY_ALL, C09_MEAN_ALL, C09_VARIANCE_ALL, C09_MEAN_AVG, C09_VIABILITY_AVG]
+ALL += C09_ALL
